@@ -17,6 +17,9 @@ CHECKS = {
    tech="real PandoraMachine callbacks executed with EUF-stub steps and symbolic interval ends; z3 (EUF + LRA) decides equality of right products with the left products of the mirrored run",
    text="Structural symmetry of all step callbacks: for every legal pipeline word (bounded length, solver-enumerated) containing a validation step the real machine is run on (L,R,[a,b]) and on (R,L,[-b,-a]) with z3 Real interval ends and uninterpreted step functions; z3 proves right1 == left2 and left1 == right2 term-wise, right dataset empty without validation, left disparity unchanged by adding cross-checking. Catches swapped/forgotten arguments, wrong right interval, skipped or doubled right branch in any <step>_run.",
    note="Stub contracts (listed in evidence): validation keeps the first map's disparities and reads only the second map's disparities; semantic_segmentation only attaches a layer read by optimization. Value-level symmetry of the numeric kernels is only covered where a value-level harness is listed in the evidence."),
+ 'C14': dict(cat='other', ref='DESIGN.md §5 C14',
+   text="The real interpolated_disparity of both methods (all four numba kernels + find_valid_neighbors, executed from their Python source) on fully symbolic small maps (1x3, 3x1, 2x2 quick; 1x4, 4x1, 2x3, 3x2 thorough): every validity mask that cross-checking can leave and every disparity (exact domain, multiples of 1/4). The kernels fork on the mask classes and every path is explored; a two-stage reference written from the documentation is executed in the same exploration and z3 decides on each path: unflagged pixels bit-identical, filled pixels swap 8->4 / 9->5 and receive exactly the documented value (hence finite, inside the range of valid disparities), pixels with no valid pixel in sight stay flagged and untouched, all indices in bounds, no exception.",
+   note="Maps of at most 6 pixels; masks restricted to the C07 postcondition (never both bits 8 and 9, flagged pixels carry no other invalidity bit, bits 4/5 clear on entry); exact value domain for disparities; ties between equal magnitudes in the sgm 'second lowest' rule accept either sign."),
  'C15': dict(cat='other', ref='DESIGN.md §5 C15', engine='E3-automaton',
    tech="real pandora.run / read_multiscale_params / run_prepare / run_multiscale executed with EUF stubs, interval arithmetic symbolic (z3 Real); schedule and interval identities decided by z3",
    text="Schedule: for every legal pipeline word containing multiscale (bounded length) and (num_scales, scale_factor) in {2,3,4}x{2,3}: matching executes once per scale from the coarsest level to the original images, steps after multiscale run once at full resolution, coarsest interval == user/sf^(n-1) and each finer interval == sf * disparity_range(coarser map, user interval of that level) as z3 validity queries over symbolic interval ends, for left and right.",
